@@ -229,8 +229,11 @@ fn fam_lzma(ctx: &CaseCtx, cov: &mut Cov) -> CaseOut {
                 return out;
             }
         };
-        // the Debug witness prints every probability: only for small tables
-        let witness = props.lc + props.lp <= 3 && rng.chance(1, 3);
+        // state witness: digest hook over the whole adaptive state (every lc/lp/pb);
+        // the Debug output is only formatted to name the differing field
+        let digest_differs = dec.verif_state_digest() != fresh.verif_state_digest();
+        cov.name("state_digest_compared_after_reset", 1);
+        let witness = digest_differs || (props.lc + props.lp <= 3 && rng.chance(1, 8));
         let dbg_reset = if witness { normalize_debug(&format!("{:?}", dec)) } else { String::new() };
         let dbg_fresh = if witness { normalize_debug(&format!("{:?}", fresh)) } else { String::new() };
         let run = |d: &mut lzma_rs::decompress::raw::LzmaDecoder| {
@@ -247,7 +250,7 @@ fn fam_lzma(ctx: &CaseCtx, cov: &mut Cov) -> CaseOut {
         cov.max("reuse_cycles", cycle + 1);
         cov.name("symbols_decoded_by_reset_decoder", syms);
         if !witness {
-        } else if dbg_reset != dbg_fresh {
+        } else if dbg_reset != dbg_fresh || digest_differs {
             // not by itself a violation (a behaviourally irrelevant cache would be legal)
             let field = dbg_reset
                 .split(", ")
@@ -411,7 +414,9 @@ fn fam_lzma2(ctx: &CaseCtx, cov: &mut Cov) -> CaseOut {
             _ => {}
         }
         let mut fresh = Lzma2Decoder::new();
-        let witness = rng.chance(1, 3);
+        let digest_differs = dec.verif_state_digest() != fresh.verif_state_digest();
+        cov.name("state_digest_compared_after_reset", 1);
+        let witness = digest_differs || rng.chance(1, 8);
         let dbg_reset = if witness { normalize_debug(&format!("{:?}", dec)) } else { String::new() };
         let dbg_fresh = if witness { normalize_debug(&format!("{:?}", fresh)) } else { String::new() };
         let run = |d: &mut Lzma2Decoder| {
@@ -427,7 +432,7 @@ fn fam_lzma2(ctx: &CaseCtx, cov: &mut Cov) -> CaseOut {
         cov.inc("observation_verdict", a.verdict.is_ok() as u32);
         cov.max("reuse_cycles", cycle + 1);
         if !witness {
-        } else if dbg_reset != dbg_fresh {
+        } else if dbg_reset != dbg_fresh || digest_differs {
             out.warnings.push("Debug output of reset Lzma2Decoder differs from a fresh one".into());
         } else {
             cov.name("debug_state_identical_after_reset", 1);
@@ -471,7 +476,7 @@ pub fn monitor(tier: Tier) -> Monitor {
     Monitor {
         id: "C14",
         level: "exploration",
-        rule: "cases = histories new; (decompress(valid | truncated | corrupt | wrong size) | reset(None) | reset(Some(size)))*; reset(arg); decompress(y) for raw LzmaDecoder (all lc/lp/pb, dict 64 / 4096 / 64 KiB) and Lzma2Decoder (streams that change properties and end on lc+lp != 0; y sometimes starts with a chunk that carries no properties, so it exposes the decoder's initial properties), 1..12 (thorough 200) reuse cycles per history; after every reset the decode of y is compared - verdict incl. error text, bytes, consumed count - with a freshly constructed decoder given the size in effect (3-line model: reset(None) keeps it); Debug formatting of both decoders compared as an extra witness; evaluations = observations; non-trivial = the reset decoder decoded >= 1 symbol",
+        rule: "cases = histories new; (decompress(valid | truncated | corrupt | wrong size) | reset(None) | reset(Some(size)))*; reset(arg); decompress(y) for raw LzmaDecoder (all lc/lp/pb, dict 64 / 4096 / 64 KiB) and Lzma2Decoder (streams that change properties and end on lc+lp != 0; y sometimes starts with a chunk that carries no properties, so it exposes the decoder's initial properties), 1..12 (thorough 200) reuse cycles per history; after every reset the decode of y is compared - verdict incl. error text, bytes, consumed count - with a freshly constructed decoder given the size in effect (3-line model: reset(None) keeps it); a digest of the whole adaptive state (hook) is compared after EVERY reset, and when it differs the recorded history is replayed on new decoders against up to 44 follow-up streams to find one that tells the two apart; evaluations = observations; non-trivial = the reset decoder decoded >= 1 symbol",
         assumptions: vec![
             "both runs use identical reader and sink types and the code is deterministic, so every observable must agree".into(),
             "a Debug-output difference alone is recorded as a warning (a behaviourally irrelevant cache would be legal)".into(),
